@@ -393,6 +393,9 @@ func (c *fsCache) Set(key string, entry []byte) error {
 	ctx, cancel := context.WithTimeout(context.Background(), c.timeout)
 	defer cancel()
 
+	// The write may outlive this call (it goes on after the timeout below): it works on
+	// a copy, so that the caller is free to reuse its buffer as soon as Set returns.
+	entry = bytes.Clone(entry)
 	errc := make(chan error, 1)
 	go func() {
 		defer close(errc)
